@@ -1213,6 +1213,13 @@ class Sym:
         if r is not None:
             ln = r.length if r.length is not None else (r.end()[0] - r.start[0], r.end()[1] - r.start[1])
             return self.lin_poly(ln)
+        if t[0] == "field" and t[2] == 0 and unmut(t[1])[0] == "downcast" and unmut(t[1])[2] == "Some":
+            # an element yielded by `chunks_exact(n)` has exactly n elements
+            nx = unmut(unmut(t[1])[1])
+            if nx[0] == "call" and short(nx[1]) == "Iterator::next" and len(nx[2]) == 1:
+                n_ = chunk_len(self, nx[2][0])
+                if n_ is not None:
+                    return Poly.const(n_)
         return None
 
     def lin_poly(self, ln):
@@ -1290,6 +1297,14 @@ class Sym:
                     rp_ = self.region_poly(t)
                     if rp_ is not None:
                         return self.rp_name(rp_)          # a sub-range of a region of the input is a region
+            if short(t[1]) == "Iterator::map" and len(t[2]) == 2 and chunk_len(self, t[2][0]) is not None:
+                cl_ = strip(t[2][1])
+                ci_ = closure_info(self.prog, self.an, cl_) if cl_[0] == "aggr" else None
+                if ci_:
+                    rets_ = closure_ret(self.prog, ci_[0])
+                    if len(rets_) == 1:
+                        r_ = whole_chunk(subst_upvars(rets_[0], ci_[1]), chunk_len(self, t[2][0]))
+                        return "Iterator::map(%s,|x| %s)" % (self.arg_name(t[2][0]), closure_pred_name(self, ci_[0], r_))
             if short(t[1]) in ("Result::<T, E>::map", "Option::<T>::map") and len(t[2]) == 2:
                 # `r.map(f)` on a path where r is a known Ok(v)/Err(e) (an expanded helper's result): Ok(f(v)) / Err(e)
                 in_ = self.name(t[2][0])
@@ -1690,11 +1705,16 @@ class Sym:
         while src[0] == "call" and short(src[1]) == "IntoIterator::into_iter" and len(src[2]) == 1:
             src = unmut(src[2][0])
         try:
-            return "Iterator::collect(Iterator::map(%s,|x| %s))" % (self.arg_name(src), closure_pred_name(self, None, v2))
+            return "Iterator::collect(Iterator::map(%s,|x| %s))" % (self.arg_name(src), closure_pred_name(self, None, whole_chunk(v2, chunk_len(self, src))))
         except Exception:
             return None
 
     def arg_name(self, a):
+        a0_ = strip(a)
+        if a0_[0] == "call" and short(a0_[1]) in ("Result::<T, E>::unwrap", "Result::<T, E>::expect") and a0_[2]:
+            in_ = strip(a0_[2][0])
+            if in_[0] == "call" and short(in_[1]) in ("TryInto::try_into", "TryFrom::try_from") and len(in_[2]) == 1 and self.ev.region(in_[2][0]) is not None:
+                a = in_[2][0]                 # the array copy of a region of the input names the region
         r = self.ev.region(a)
         if r is not None:
             return self.region_name(r)
@@ -2209,6 +2229,52 @@ class Sym:
                     nm = var["name"]
             out.append(nm or str(v))
         return out
+
+
+def whole_chunk(ret, n):
+    """`[x[0], x[1], .., x[n-1]]` where the closure argument x is an n-element chunk is x itself"""
+    if not isinstance(n, int) or n <= 0:
+        return ret
+
+    def idx_of(e):
+        e = strip(e)
+        if e[0] == "index" and strip(e[1]) == ("carg", 0):
+            i = strip(e[2])
+            return i[1] if i[0] == "const" and isinstance(i[1], int) else None
+        if e[0] == "cindex" and strip(e[1]) == ("carg", 0) and not e[3]:
+            return e[2]
+        if e[0] == "call" and short(e[1]) == "Index::index" and len(e[2]) == 2 and strip(e[2][0]) == ("carg", 0):
+            i = strip(e[2][1])
+            return i[1] if i[0] == "const" and isinstance(i[1], int) else None
+        return None
+
+    def sub(x):
+        if not isinstance(x, tuple) or not x or not isinstance(x[0], str):
+            return x
+        if x[0] == "aggr" and x[1] == "array" and len(x[2]) == n and [idx_of(e) for e in x[2]] == list(range(n)):
+            return ("carg", 0)
+        out = [x[0]]
+        for y in x[1:]:
+            if isinstance(y, tuple) and y and isinstance(y[0], str):
+                out.append(sub(y))
+            elif isinstance(y, tuple):
+                out.append(tuple(sub(z) if isinstance(z, tuple) else z for z in y))
+            else:
+                out.append(y)
+        return tuple(out)
+    return sub(ret)
+
+
+def chunk_len(sym, src):
+    """n when the iterator is `chunks_exact(_, n)` with a constant n"""
+    x = unmut(src)
+    while x[0] == "call" and short(x[1]) == "IntoIterator::into_iter" and len(x[2]) == 1:
+        x = unmut(x[2][0])
+    if x[0] == "call" and short(x[1]) == "<impl [T]>::chunks_exact" and len(x[2]) == 2:
+        k = sym.poly(x[2][1])
+        if k is not None and k.is_const():
+            return int(k.const_value())
+    return None
 
 
 def closure_pred_name(sym, cbody, ret):
